@@ -1103,7 +1103,8 @@ def hub_checks(ctx, quick):
         if got.shape != np.asarray(e).shape or not np.allclose(got, e, rtol=tol, atol=1e-9):
             ctx.fail({"kind": "hub-definition", "method": nm},
                      f"{nm} ({what}) differs from its definition on the sub-blocks for cross "
-                     f"degrees {degs}: {np.round(got, 4).tolist()[:12] if got.ndim else got} vs "
+                     f"degrees {'> 255' if what == 'clique hub' else degs}: "
+                     f"{np.round(got, 4).tolist()[:12] if got.ndim else got} vs "
                      f"{np.round(e, 4).tolist()[:12] if np.ndim(e) else e}",
                      {"N1": n1, "N2": n2, "cross_degrees": degs, "method": nm, "variant": what,
                       "adjacency_rows_of_group_1": [np.nonzero(A[i])[0].tolist() for i in L1]})
@@ -1172,6 +1173,30 @@ def hub_checks(ctx, quick):
              ("nsi_cross_global_clustering", (allv, allv), float(netw.nsi_global_clustering()))]
     for nm, args, e in whole:
         compare(netw, nm, args, e, "both groups = all nodes (shuffled) vs single-network method")
+    # one node facing a nearly complete group of 262 nodes: more than 2^15 triangles / triples per
+    # node, so a counter narrower than the kernels' `long` (counters_are_long) would wrap
+    m2 = 262
+    Ac = np.ones((m2 + 2, m2 + 2), dtype=np.int8)
+    np.fill_diagonal(Ac, 0)
+    Ac[0, 1] = Ac[1, 0] = 0
+    for _ in range(200):
+        a, b = rng.sample(range(2, m2 + 2), 2)
+        Ac[a, b] = Ac[b, a] = 0
+    for j in rng.sample(range(2, m2 + 2), 3):
+        Ac[1, j] = Ac[j, 1] = 0
+    netc = InteractingNetworks(adjacency=Ac, silence_level=3)
+    C1, C2 = [0, 1], list(range(2, m2 + 2))
+    rng.shuffle(C2)
+    Bc = Ac[np.ix_(C1, C2)].astype(np.int64)
+    A2c = Ac[np.ix_(C2, C2)].astype(np.int64)
+    kc = Bc.sum(axis=1)
+    tric = np.array([(Bc[i][:, None] * Bc[i][None, :] * A2c).sum() // 2 for i in range(2)])
+    trpc = kc * (kc - 1) // 2
+    ctx.count("hub:clique-triangles-per-node>2^15", int((tric > 2 ** 15).sum()))
+    compare(netc, "cross_local_clustering", (C1, C2), tric / trpc.astype(float), "clique hub")
+    compare(netc, "cross_global_clustering", (C1, C2), (tric / trpc.astype(float)).mean(),
+            "clique hub")
+    compare(netc, "cross_transitivity", (C1, C2), tric.sum() / float(trpc.sum()), "clique hub")
     # directed hubs: cross_degree = in + out reaches 2 * 240
     Ad = A.copy()
     for i in range(n1):
